@@ -4,7 +4,7 @@
 f=$(readlink -f $1); id=$(basename $(dirname $f)); [ "$(basename $f)" = patch.diff ] || id=$id-$(basename $f .diff)
 pv=/tmp/pv/$id; pr=/tmp/pr/$id
 mkdir -p /tmp/pv /tmp/pr
-rm -rf $pv; rsync -a --exclude .git --exclude replays --exclude seeded /verif/ $pv/
+rm -rf $pv; rsync -a --exclude .git --exclude replays --exclude seeded --exclude benign ${SRC:-/verif}/ $pv/
 git -C /repo worktree remove --force $pr 2>/dev/null
 git -C /repo worktree add -q --detach $pr HEAD && git -C $pr apply $f || { echo "[$id] cannot prepare repo copy"; exit 2; }
 bad=""
